@@ -13,6 +13,7 @@ the import block.  What counts as a file-modifying call:
   <x>.Truncate(, every function of renameio, renameio/maybe and aghrenameio,
   and the pending-file methods CloseAtomicallyReplace / CloseReplace / Cleanup.
 """
+import json
 import os
 import re
 import sys
@@ -99,8 +100,18 @@ def call_args(text, start):
     return text[start + 1:]
 
 
+def source_path(rel):
+    """Scratch mutations of the self-tests (VERIF_EXTRA_OVERLAY) are honoured."""
+    p = os.path.join(REPO, rel)
+    try:
+        ov = json.loads(os.environ.get("VERIF_EXTRA_OVERLAY") or "{}")
+    except ValueError:
+        ov = {}
+    return ov.get(p, p)
+
+
 def scan(rel):
-    raw = open(os.path.join(REPO, rel)).read()
+    raw = open(source_path(rel)).read()
     imp = imports(raw)
     txt = blank(raw)
     if 'build windows' in raw.split("package", 1)[0]:
